@@ -319,6 +319,55 @@ func genSurface() {
 	} else {
 		fail("%s: ticket.makeCipher not found", ticketRel)
 	}
+	// how the cookie MAC is computed and checked (pkg/encryption/utils.go): the model's `mac` is HMAC over name, value and
+	// timestamp in that order, compared in constant time
+	const encRel = "pkg/encryption/utils.go"
+	tt := func(n ast.Node) string { return strings.Join(strings.Fields(exprText(encRel, n)), "") }
+	type fact struct {
+		name string
+		ok   bool
+	}
+	var macFacts []fact
+	if fd := funcDecl(encRel, "cookieSignature"); fd != nil && len(fd.Body.List) == 5 {
+		b := fd.Body.List
+		keyed := tt(b[0]) == "h:=hmac.New(signer,[]byte(args[0]))"
+		loop := false
+		if rs, ok := b[1].(*ast.RangeStmt); ok && tt(rs.X) == "args[1:]" && tt(rs.Value) == "arg" && len(rs.Body.List) == 2 {
+			loop = tt(rs.Body.List[0]) == "_,err:=h.Write([]byte(arg))" && tt(rs.Body.List[1]) == "iferr!=nil{return\"\",err}"
+		}
+		sum := tt(b[2]) == "varb[]byte" && tt(b[3]) == "b=h.Sum(b)" && tt(b[4]) == "returnbase64.URLEncoding.EncodeToString(b),nil"
+		macFacts = append(macFacts, fact{"keyed with the first argument", keyed}, fact{"every further argument is written, in order", loop},
+			fact{"the digest alone is returned", sum})
+	} else {
+		macFacts = append(macFacts, fact{"cookieSignature has the expected five statements", false})
+	}
+	callArgs := func(fn, callee string) string {
+		cs := callsIn(encRel, fn, callee)
+		if len(cs) != 1 {
+			return ""
+		}
+		var as []string
+		for _, a := range cs[0].Args {
+			as = append(as, tt(a))
+		}
+		return strings.Join(as, ",")
+	}
+	macFacts = append(macFacts,
+		fact{"SignedValue signs (seed, name, encoded value, timestamp)", callArgs("SignedValue", "cookieSignature") == "sha256.New,seed,key,encodedValue,timeStr"},
+		fact{"Validate checks field 3 against (seed, name, field 1, field 2) as received", callArgs("Validate", "checkSignature") == "parts[2],seed,cookie.Name,parts[0],parts[1]"},
+		fact{"checkSignature recomputes with the same arguments", callArgs("checkSignature", "cookieSignature") == "sha256.New,args"},
+		fact{"the comparison is hmac.Equal", len(callsIn(encRel, "checkHmac", "hmac.Equal")) == 1})
+	g.line("")
+	g.line("(* how the cookie MAC is computed and checked *)")
+	g.line("Definition mac_shape : list (string * bool) := [")
+	for i, f := range macFacts {
+		sep := ";"
+		if i == len(macFacts)-1 {
+			sep = ""
+		}
+		g.line("  (\"%s\", %v)%s", f.name, f.ok, sep)
+	}
+	g.line("].")
 	g.line("")
 	g.line("(* ticket.makeCipher builds exactly one cipher and it is encryption.NewGCMCipher *)")
 	g.line("Definition ticket_cipher_is_gcm : bool := %v.", gcm == 1 && other == 0)
